@@ -8,6 +8,8 @@ def dispatch (op : String) (args : List Sexp) : String :=
   | "codec.dec" => opCodecDec args
   | "sock.recv" => opSockRecv args
   | "seq.hash" => opSeqHash args
+  | "reply.generic" => opReplyGeneric args
+  | "reply.register" => opReplyRegister args
   | "path.epath" => opPathEpath args
   | "path.seg" => opPathSeg args
   | "path.req" => opPathReq args
